@@ -36,7 +36,7 @@ def _walk(n):
         x = st.pop()
         if isinstance(x, dict):
             yield x
-            st.extend(reversed(list(x.values())))
+            st.extend(reversed([v for k, v in x.items() if k != "cm"]))   # "cm": a view attached at load time, not part of the tree
         elif isinstance(x, list):
             st.extend(reversed(x))
 
@@ -292,6 +292,28 @@ def match_fns(base, cur_fns, al):
         al.log.append("fn %s -> %s" % (cur_n[n], base_n[o]))
 
 
+def _align_names(bb, cn, taken=()):
+    """{new: old} for two binding sequences.  The new spelling must be new to the scope.  Pairs whose old spelling vanished altogether are
+    trusted first; pairs whose old spelling is still bound elsewhere (one of several shadowing bindings was renamed) only fill what is left.
+    One new name stands for one old name throughout."""
+    bset, cset = set(bb), set(cn)
+    strict, relaxed = {}, {}
+    sm = difflib.SequenceMatcher(a=bb, b=cn, autojunk=False)
+    for tag, i1, i2, j1, j2 in sm.get_opcodes():
+        if tag != "replace" or (i2 - i1) != (j2 - j1):
+            continue
+        for k in range(i2 - i1):
+            o, n = bb[i1 + k], cn[j1 + k]
+            if n in bset or o == n or n in taken:
+                continue
+            (strict if o not in cset else relaxed).setdefault(n, set()).add(o)
+    amap = {n: next(iter(os_)) for n, os_ in strict.items() if len(os_) == 1}
+    for n, os_ in relaxed.items():
+        if n not in strict and len(os_) == 1:
+            amap[n] = next(iter(os_))
+    return amap
+
+
 def match_locals(base, cur_fns, al):
     inv = {o: n for n, o in al.fn.items()}
     for bp, bo in base.items():
@@ -306,22 +328,7 @@ def match_locals(base, cur_fns, al):
         cn = [n for _, n in cb]
         if bb == cn:
             continue
-        bset, cset = set(bb), set(cn)
-        amap = {}
-        bad = set()
-        sm = difflib.SequenceMatcher(a=bb, b=cn, autojunk=False)
-        for tag, i1, i2, j1, j2 in sm.get_opcodes():
-            if tag != "replace" or (i2 - i1) != (j2 - j1):
-                continue
-            for k in range(i2 - i1):
-                o, n = bb[i1 + k], cn[j1 + k]
-                if n in bset or o == n:
-                    continue   # the new spelling must be new to the function (the old one may still be bound elsewhere in it)
-                if n in amap and amap[n] != o:
-                    bad.add(n)
-                amap.setdefault(n, o)
-        # one new name must stand for one old name throughout the function
-        amap = {n: o for n, o in amap.items() if n not in bad}
+        amap = _align_names(bb, cn)
         if amap:
             al.local[bp] = amap
             al.log.append("locals of %s: %s" % (npath(bp), ", ".join("%s->%s" % kv for kv in sorted(amap.items()))))
@@ -488,6 +495,14 @@ def apply(data, al):
 
 TEMPLATE_ALIASES = {}   # backend dir -> {new: old}  (fields of the tool's template structs)
 LOG = []
+GLOBAL = Alias()        # aliases of every unit canonicalised so far: a crate's renamed items are referenced from its dependants' facts too
+DEPS = {   # units whose items a unit's facts can mention (they are canonicalised first)
+    "diplomat_tool.lib": ["diplomat_runtime.lib", "diplomat_core.lib+hir"],
+    "diplomat_tool.bin": ["diplomat_runtime.lib", "diplomat_core.lib+hir", "diplomat_tool.lib"],
+    "diplomat.lib": ["diplomat_core.lib"],
+    "diplomat_feature_tests.lib": ["diplomat_runtime.lib"],
+    "diplomat_example.lib": ["diplomat_runtime.lib"],
+}
 
 
 def canonicalise(unit_name, data):
@@ -501,10 +516,24 @@ def canonicalise(unit_name, data):
     match_fields(base["adts"], cur_adts, al)
     match_fns(base["fns"], cur_fns, al)
     match_locals(base["fns"], cur_fns, al)
+    for l in al.log:
+        LOG.append("%s: %s" % (unit_name, l))
+    crate = data.get("crate") or ""
+    # paths and fields of items defined in other crates (already canonicalised: see DEPS) are spelled back here as well
+    for n, o in GLOBAL.adt.items():
+        if not n.startswith(crate + "::"):
+            al.adt.setdefault(n, o)
+    for n, o in GLOBAL.fn.items():
+        if not n.startswith(crate + "::"):
+            al.fn.setdefault(n, o)
+    for k_, o in GLOBAL.field.items():
+        if not k_[0].startswith(crate + "::"):
+            al.field.setdefault(k_, o)
     if not al.empty():
         apply(data, al)
-        for l in al.log:
-            LOG.append("%s: %s" % (unit_name, l))
+    GLOBAL.adt.update(al.adt)
+    GLOBAL.fn.update(al.fn)
+    GLOBAL.field.update(al.field)
     if unit_name == "diplomat_tool.lib":
         for (adt, n), o in al.field.items():
             segs = adt.split("::")
@@ -534,16 +563,8 @@ def tpl_local_aliases(repo):
             if cn is None or cn == bb:
                 continue
             d = os.path.dirname(rel)
-            bset, cset = set(bb), set(cn)
-            sm = difflib.SequenceMatcher(a=bb, b=cn, autojunk=False)
-            for tag, i1, i2, j1, j2 in sm.get_opcodes():
-                if tag != "replace" or (i2 - i1) != (j2 - j1):
-                    continue
-                for k in range(i2 - i1):
-                    o, n = bb[i1 + k], cn[j1 + k]
-                    if o == n or n in bset or n in per_dir_old.get(d, ()):
-                        continue
-                    cand.setdefault(d, {}).setdefault(n, set()).add(o)
+            for n, o in _align_names(bb, cn, taken=per_dir_old.get(d, ())).items():
+                cand.setdefault(d, {}).setdefault(n, set()).add(o)
         for d, mp in cand.items():
             out[d] = {n: next(iter(os_)) for n, os_ in mp.items() if len(os_) == 1}
     _TPL_LOCAL_CACHE[repo] = out
